@@ -2,35 +2,194 @@
 // Any TSan report (data race, lock-order problem) aborts the process with exit code 96; the
 // coefficients must be bit-identical for every worker count.
 #include <cfloat>
+#include <sched.h>
+#include <atomic>
+#include <cholmod.h>
+#include "cholesky_solve.h"  // /repo/src/fitter (added to the include path for this unit)
+#include <errno.h>
 #include "common/vf_rc.hpp"
 #include "common/fitgen.hpp"
 
 using namespace vf;
+
+// 0: every pin succeeds; n > 0: pinning to a CPU index >= n fails with EINVAL (see body)
+static int g_usable_cpus = 0;
+static std::atomic<long> g_pin_calls{0};   // every worker of every line search pins itself once: a count of line searches x workers
+extern "C" int sched_setaffinity(pid_t, size_t sz, const cpu_set_t* set) noexcept {
+  g_pin_calls++;
+  if (g_usable_cpus > 0 && set) for (int cpu = 0; cpu < (int)(sz * 8) && cpu < CPU_SETSIZE; cpu++) if (CPU_ISSET_S(cpu, sz, set)) { if (cpu >= g_usable_cpus) { errno = EINVAL; return -1; } break; }
+  return 0;
+}
 
 namespace {
 
 CaseResult body(Chooser& ch, Stats* st) {
   CaseResult r;
   QuietStderr q;
-  FitGenOpts fo; fo.max_ndim = 2; fo.min_order = 1; fo.max_order = 3; fo.max_coeff = 40; fo.max_rows = 400; fo.allow_sparse = false;
+  FitGenOpts fo; fo.max_ndim = 2; fo.min_order = 1; fo.max_order = 3; fo.max_coeff = 60; fo.max_rows = 500; fo.allow_sparse = false;
   FitProblem p = gen_fit_problem(ch, fo);
   uint32_t md = (uint32_t)ch.draw(0, p.ndim - 1);
+  // three quarters of the data sets fall and oscillate along the monotonic dimension, so that the constraint is
+  // active and the solver needs its parallel line search (with the generator's shapes only a third of the fits did)
+  if (gen_version() >= 2 && ch.draw(0, 3) != 0) {
+    double lo = p.knots[md].front(), hi = p.knots[md].back();
+    for (size_t row = 0; row < p.nrows(); row++) { double u = (p.coords[md][p.idx[md][row]] - lo) / (hi - lo); double o = 0; for (uint32_t d = 0; d < p.ndim; d++) if (d != md) o += p.coords[d][p.idx[d][row]]; p.y[row] = 3.0 - 4.0 * u + 1.5 * sin(11.0 * u + o); }
+    p.data_class = "falling_oscillating+" + p.data_class.substr(p.data_class.find('+') == std::string::npos ? p.data_class.size() : p.data_class.find('+') + 1);
+  }
   r.json = "{\"monodim\":" + std::to_string(md) + ",\"problem\":" + p.json(3) + "}";
   DenseSys S = assemble_reference(p);
   std::vector<LD> L;
   if (!cholesky_ld(S.A, S.n, L) || !(cond_estimate(S.A, L, S.n) < 1e6L)) { r.discard = true; return r; }
   static const int workers[] = {1, 2, 3, 5, 8, 16, 32};
+  // a process confined to a few CPUs (container, cpuset, or simply more workers than CPUs): pinning worker k to
+  // CPU k then fails for k >= the number of usable CPUs.  The executable's own sched_setaffinity (below) stands in
+  // for the kernel's so that this does not depend on the machine the check runs on.
+  static const int cpus[] = {0, 0, 2, 3};
+  g_usable_cpus = gen_version() >= 2 ? cpus[ch.draw(0, 3)] : 0;
+  struct Reset { ~Reset() { g_usable_cpus = 0; } } reset;
+  if (st) st->label(g_usable_cpus ? "cpus:restricted" : "cpus:all");
   std::vector<float> first;
+  long pins0 = g_pin_calls;
   for (int w : workers) {
     setenv("OMP_NUM_THREADS", std::to_string(w).c_str(), 1);
     Table t;
     try { run_fit(t, p, md); } catch (std::exception& e) { r.fail = std::string("monotonic fit threw with ") + std::to_string(w) + " workers: " + e.what(); return r; }
     std::vector<float> c(t.get_coefficients(), t.get_coefficients() + t.get_ncoeffs());
     if (first.empty()) first = c;
-    else if (c.size() != first.size() || memcmp(c.data(), first.data(), c.size() * 4) != 0) { r.fail = "coefficients with " + std::to_string(w) + " workers differ from those with 1 worker"; return r; }
+    else {
+      // modify_factor's choice between row updates and a refactorization depends on the worker count, so the two
+      // runs may round differently in double precision; anything beyond a few float ulps is a different result
+      float mx = 0; for (float v : first) mx = std::max(mx, std::fabs(v));
+      bool same = c.size() == first.size();
+      for (size_t i = 0; same && i < c.size(); i++) if (!(std::fabs(c[i] - first[i]) <= 16 * FLT_EPSILON * mx)) same = false;
+      if (!same) { r.fail = "coefficients with " + std::to_string(w) + " workers differ from those with 1 worker"; return r; }
+      if (st && memcmp(c.data(), first.data(), c.size() * 4) != 0) st->label("coefficients:equal_within_rounding_only");
+    }
     if (st) st->label("fits");
   }
+  if (st) { long ls = (g_pin_calls - pins0) / 67; st->label(ls == 0 ? "line_searches:none" : ls < 4 ? "line_searches:1-3" : "line_searches:4+"); st->label("line_searches_x_worker_counts", (size_t)(ls * 7)); }
   if (st) { st->label("ndim:" + std::to_string(p.ndim)); Hasher h; h.add(md); for (double v : p.y) h.addd(v); for (uint32_t d = 0; d < p.ndim; d++) for (double k : p.knots[d]) h.addd(k); st->nontriv(h.h); st->sample(r.json); }
+  return r;
+}
+
+// the solver itself on systems that keep it busy: dense positive-definite systems with a right-hand side of mixed
+// signs make coefficients that were positive turn negative after others are released - the situation in which block3
+// runs its parallel line search (real fits of the size a quick tier affords rarely get there)
+extern "C" cholmod_dense* nnls_normal_block3(cholmod_sparse*, cholmod_dense*, int, cholmod_common*);
+
+CaseResult body_nnls(Chooser& ch, Stats* st) {
+  CaseResult r;
+  QuietStderr q;
+  int n = 8 + (int)ch.draw(0, 52);
+  int m = n + (int)ch.draw(0, n);
+  uint64_t salt = ch.draw(0, 0xffffff);
+  std::vector<double> M((size_t)m * n, 0.0), A((size_t)n * n, 0.0), b(n);
+  for (int i = 0; i < m; i++) for (int j = 0; j < n; j++) { uint64_t h = mix64(salt ^ mix64((uint64_t)i * 1000 + j)); if (h % 4 == 0) continue; M[(size_t)i * n + j] = (double)((int)((h >> 8) % 9) - 4) / 2.0; }
+  for (int k = 0; k < m; k++) for (int i = 0; i < n; i++) { double a = M[(size_t)k * n + i]; if (a == 0) continue; for (int j = 0; j < n; j++) A[(size_t)i * n + j] += a * M[(size_t)k * n + j]; }
+  for (int i = 0; i < n; i++) A[(size_t)i * n + i] += 1.0;
+  // half of the systems in the cumulative (T-spline like) basis the monotonic fit works in: A := L'AL with L the
+  // lower-triangular matrix of ones.  Its columns are strongly correlated, which is what sends coefficients that
+  // were positive below zero once others are released
+  int kind = (int)ch.draw(0, 1);
+  if (kind == 1) {
+    std::vector<double> T((size_t)n * n, 0.0);   // T = A L : T[i][j] = sum_{k>=j} A[i][k]
+    for (int i = 0; i < n; i++) { double acc = 0; for (int j = n - 1; j >= 0; j--) { acc += A[(size_t)i * n + j]; T[(size_t)i * n + j] = acc; } }
+    for (int j = 0; j < n; j++) { double acc = 0; for (int i = n - 1; i >= 0; i--) { acc += T[(size_t)i * n + j]; A[(size_t)i * n + j] = acc; } }   // L'T
+  }
+  for (int i = 0; i < n; i++) { uint64_t h = mix64(salt ^ mix64(777777 + (uint64_t)i)); b[i] = ((h & 1) ? 1.0 : -1.0) * (double)(1 + (h >> 4) % 64) / 8.0 * n; }
+  if (kind == 1) { double acc = 0; for (int i = n - 1; i >= 0; i--) { acc += b[i]; b[i] = acc; } }   // L'b
+  static const int cpus[] = {0, 0, 2, 3};
+  g_usable_cpus = cpus[ch.draw(0, 3)];
+  struct Reset { ~Reset() { g_usable_cpus = 0; } } reset;
+  r.json = "{\"n\":" + std::to_string(n) + ",\"rows\":" + std::to_string(m) + ",\"salt\":" + std::to_string(salt) + ",\"cumulative_basis\":" + std::to_string(kind) + ",\"usable_cpus\":" + std::to_string(g_usable_cpus) + "}";
+  static const int workers[] = {1, 2, 3, 5, 8, 16, 32};
+  std::vector<double> first;
+  long pins0 = g_pin_calls;
+  for (int w : workers) {
+    setenv("OMP_NUM_THREADS", std::to_string(w).c_str(), 1);
+    cholmod_common c; cholmod_l_start(&c);
+    cholmod_dense* Ad = cholmod_l_allocate_dense(n, n, n, CHOLMOD_REAL, &c);
+    for (int i = 0; i < n; i++) for (int j = 0; j < n; j++) ((double*)Ad->x)[(size_t)j * n + i] = A[(size_t)i * n + j];
+    cholmod_sparse* As = cholmod_l_dense_to_sparse(Ad, 1, &c);
+    cholmod_l_free_dense(&Ad, &c);
+    cholmod_dense* bd = cholmod_l_allocate_dense(n, 1, n, CHOLMOD_REAL, &c);
+    for (int i = 0; i < n; i++) ((double*)bd->x)[i] = b[i];
+    cholmod_dense* x = nnls_normal_block3(As, bd, 0, &c);
+    std::vector<double> xs; if (x) xs.assign((double*)x->x, (double*)x->x + n);
+    if (x) cholmod_l_free_dense(&x, &c);
+    cholmod_l_free_sparse(&As, &c); cholmod_l_free_dense(&bd, &c);
+    cholmod_l_finish(&c);
+    if (xs.empty()) { r.fail = "block3 returned no solution with " + std::to_string(w) + " workers"; return r; }
+    if (first.empty()) first = xs;
+    else {
+      double mx = 0; for (double v : first) mx = std::max(mx, std::fabs(v));
+      for (int i = 0; i < n; i++) if (!(std::fabs(xs[i] - first[i]) <= 1e-9 * mx + 1e-12)) { r.fail = "block3 with " + std::to_string(w) + " workers returns component " + std::to_string(i) + " = " + jnum(xs[i]) + ", with 1 worker " + jnum(first[i]); return r; }
+      if (st && memcmp(xs.data(), first.data(), (size_t)n * 8) != 0) st->label("solution:equal_within_rounding_only");
+    }
+    if (st) st->label("solves");
+  }
+  if (st) {
+    long ls = (g_pin_calls - pins0) / 67; st->label(ls == 0 ? "line_searches:none" : ls < 4 ? "line_searches:1-3" : "line_searches:4+"); st->label("line_searches_x_worker_counts", (size_t)(ls * 7));
+    st->label(g_usable_cpus ? "cpus:restricted" : "cpus:all"); st->label(kind ? "basis:cumulative" : "basis:plain"); if (ls > 0) st->label(kind ? "line_searches_in:cumulative" : "line_searches_in:plain");
+    Hasher h; h.add(kind); h.add(n); h.add(m); h.add(salt); h.add(g_usable_cpus); if (ls > 0) st->nontriv(h.h); st->sample(r.json);
+  }
+  return r;
+}
+
+// the line search itself, with real threads: walk_descents on generated problems (1..40 unknowns, 0..30 components
+// that the full step would make negative => 2..32 trial step lengths) for every worker count, with and without
+// failing CPU pins.  Every case runs the parallel section; TSan watches it, and the outputs must not depend on the
+// worker count (the step lengths are tried in the same order whatever the block size).
+CaseResult body_linesearch(Chooser& ch, Stats* st) {
+  CaseResult r;
+  QuietStderr q;
+  int n = 1 + (int)ch.draw(0, 39);
+  int nneg = (int)ch.draw(0, std::min(n, 30));
+  static const double pos[] = {0.5, 1, 2, 3.5, 0.25, 7};
+  static const double neg[] = {-0.5, -1, -3, -0.125, -10};
+  std::vector<double> x0(n), xF0(n), A((size_t)n * n, 0.0), b(n);
+  for (int i = 0; i < n; i++) { x0[i] = pos[ch.draw(0, 5)]; xF0[i] = i < nneg ? neg[ch.draw(0, 4)] : pos[ch.draw(0, 5)]; }
+  uint64_t salt = ch.draw(0, 0xffffff);
+  std::vector<double> M((size_t)n * n);
+  for (size_t k = 0; k < M.size(); k++) M[k] = (double)((int)(mix64(salt ^ mix64(k)) % 5) - 2);
+  for (int i = 0; i < n; i++) for (int j = 0; j < n; j++) { double sacc = i == j ? 1.0 : 0.0; for (int k = 0; k < n; k++) sacc += M[(size_t)k * n + i] * M[(size_t)k * n + j]; A[(size_t)i * n + j] = sacc; }
+  for (int i = 0; i < n; i++) b[i] = (double)((int)(mix64(salt ^ mix64(999983 + (uint64_t)i)) % 9) - 4);
+  static const int cpus[] = {0, 0, 1, 2, 5};
+  g_usable_cpus = cpus[ch.draw(0, 4)];
+  struct Reset { ~Reset() { g_usable_cpus = 0; } } reset;
+  r.json = "{\"n\":" + std::to_string(n) + ",\"trial_steps\":" + std::to_string(2 + nneg) + ",\"usable_cpus\":" + std::to_string(g_usable_cpus) + ",\"x\":" + jarr(x0) + ",\"x_F\":" + jarr(xF0) + "}";
+  static const int workers[] = {1, 2, 3, 4, 7, 16, 32, 33};
+  std::string first;
+  for (int w : workers) {
+    setenv("OMP_NUM_THREADS", std::to_string(w).c_str(), 1);
+    cholmod_common cc; cholmod_l_start(&cc);
+    cholmod_dense* Ad = cholmod_l_allocate_dense(n, n, n, CHOLMOD_REAL, &cc);
+    for (int i = 0; i < n; i++) for (int j = 0; j < n; j++) ((double*)Ad->x)[(size_t)j * n + i] = A[(size_t)i * n + j];
+    cholmod_sparse* As = cholmod_l_dense_to_sparse(Ad, 1, &cc);
+    cholmod_l_free_dense(&Ad, &cc);
+    cholmod_dense* bd = cholmod_l_allocate_dense(n, 1, n, CHOLMOD_REAL, &cc);
+    cholmod_dense* x = cholmod_l_allocate_dense(n, 1, n, CHOLMOD_REAL, &cc);
+    cholmod_dense* xF = cholmod_l_allocate_dense(n, 1, n, CHOLMOD_REAL, &cc);
+    std::vector<long> F(n), H1(n + 2, -1);
+    for (int i = 0; i < n; i++) { ((double*)bd->x)[i] = b[i]; ((double*)x->x)[i] = x0[i]; ((double*)xF->x)[i] = xF0[i]; F[i] = i; }
+    long nF = n, nH1 = 0; double residual = 1e300; int calcs = 0;
+    int feasible = walk_descents(As, bd, x, xF, F.data(), &nF, H1.data(), &nH1, &residual, &calcs, 0, &cc);
+    std::ostringstream o; o << feasible << " " << nH1;
+    for (long i = 0; i < nH1; i++) o << " h" << H1[i];
+    char buf[64];
+    for (int i = 0; i < n; i++) { snprintf(buf, sizeof buf, " %a", ((double*)x->x)[i]); o << buf; }
+    snprintf(buf, sizeof buf, " r%a", residual); o << buf;
+    cholmod_l_free_sparse(&As, &cc); cholmod_l_free_dense(&bd, &cc); cholmod_l_free_dense(&x, &cc);
+    // walk_descents consumes x_F
+    cholmod_l_finish(&cc);
+    if (first.empty()) first = o.str();
+    else if (o.str() != first) { r.fail = "walk_descents with " + std::to_string(w) + " workers returns " + o.str().substr(0, 200) + ", with 1 worker " + first.substr(0, 200); return r; }
+    if (st) st->label("line_searches");
+  }
+  if (st) {
+    st->label(g_usable_cpus ? "cpus:restricted" : "cpus:all"); st->label("trial_steps:" + std::string(2 + nneg <= 3 ? "2-3" : 2 + nneg <= 8 ? "4-8" : 2 + nneg <= 16 ? "9-16" : "17+"));
+    Hasher h; h.add(n); h.add(nneg); h.add(salt); h.add(g_usable_cpus); for (double v : x0) h.addd(v); for (double v : xF0) h.addd(v); st->nontriv(h.h); st->sample(r.json);
+  }
   return r;
 }
 
@@ -38,6 +197,6 @@ CaseResult body(Chooser& ch, Stats* st) {
 
 int main(int argc, char** argv) {
   Options o = parse_options(argc, argv);
-  Prop a{"tsan_fits", body, 1.0};
-  return run_main(o, "C12", {a});
+  Prop a{"tsan_fits", body, 1.0}, b{"tsan_nnls", body_nnls, 1.0}, c{"tsan_linesearch", body_linesearch, 2.0, 1 /* isolated: a line search that never returns is a failing case, not a stuck worker */, 1024, 20};
+  return run_main(o, "C12", {a, b, c});
 }
